@@ -40,6 +40,22 @@ def hash_twins(prng, labels):
     return out
 
 
+_ATLAS = None
+
+
+def atlas_graph(k):
+    """k-th graph with at least one edge of the networkx graph atlas (all 1252 graphs with an edge on up to 7 vertices, in
+    atlas order); None beyond the end.  Returned as (number of vertices, edge list)."""
+    global _ATLAS
+    if _ATLAS is None:
+        import networkx as nx
+        _ATLAS = [(g.number_of_nodes(), sorted(g.edges())) for g in nx.graph_atlas_g() if g.number_of_edges() > 0]
+    return _ATLAS[k] if 0 <= k < len(_ATLAS) else None
+
+
+ATLAS_FROM = 1000          # run indexes ATLAS_FROM .. ATLAS_FROM + 1251 of the cover checks walk through the atlas
+
+
 def size(prng, lo=0, hi=None):
     c = [x for x in SIZES if x >= lo and (hi is None or x <= hi)]
     return prng.choice(c) if c else lo
